@@ -211,7 +211,7 @@ def main(argv=None):
             ctx.notes.append('search crashed: ' + traceback.format_exc()[-2000:])
         unlisted = [f for f in ctx.failures if f.finding is None]
 
-    os.makedirs(os.path.join(VERIF, 'replays'), exist_ok=True)
+    os.makedirs(os.path.join(coqbuild.OUT, 'replays'), exist_ok=True)
     lines, rc = [], 0
     seen_findings = {}
     for f in ctx.failures:
@@ -234,7 +234,7 @@ def main(argv=None):
                   others=[dict(explanation=g.explanation, case=g.case) for g in unlisted[1:4]],
                   broken_obligations=broken,
                   mismatches=ctx.mismatches[:2])
-        path = os.path.join(VERIF, 'replays', '%s-%s.json' % (prop, hash_of(case)))
+        path = os.path.join(coqbuild.OUT, 'replays', '%s-%s.json' % (prop, hash_of(case)))
         json.dump(rp, open(path, 'w'), indent=1, default=str)
         lines.append('VIOLATION property=%s replay=%s' % (prop, path))
         violations = len(unlisted)
@@ -252,7 +252,7 @@ def main(argv=None):
         rp = dict(property=prop, kind='no-failing-input-found', what=what, broken_obligations=broken,
                   mismatches=ctx.mismatches[:5], searched=searched, seed=ctx.seed, tier=tier,
                   notes=ctx.notes)
-        path = os.path.join(VERIF, 'replays', '%s-unproved-%s.json' % (prop, hash_of(what)))
+        path = os.path.join(coqbuild.OUT, 'replays', '%s-unproved-%s.json' % (prop, hash_of(what)))
         json.dump(rp, open(path, 'w'), indent=1, default=str)
         lines.append('VIOLATION property=%s replay=%s no-failing-input-found' % (prop, path))
         violations = 1
@@ -284,8 +284,8 @@ def main(argv=None):
             distribution=ctx.dist, broken_obligations=broken, notes=ctx.notes, **ctx.extra),
         assumptions=getattr(mod, 'ASSUMPTIONS', []),
         wall_s=round(time.time() - ctx.t0, 2), violations=violations)
-    os.makedirs(os.path.join(VERIF, 'evidence'), exist_ok=True)
-    json.dump(ev, open(os.path.join(VERIF, 'evidence', prop + '.json'), 'w'), indent=1, default=str)
+    os.makedirs(os.path.join(coqbuild.OUT, 'evidence'), exist_ok=True)
+    json.dump(ev, open(os.path.join(coqbuild.OUT, 'evidence', prop + '.json'), 'w'), indent=1, default=str)
 
     for l in lines:
         print(l)
